@@ -30,6 +30,10 @@ impl<T> RV<T> {
     }
 }
 
+/// a tolerance on an approximate operand cannot shrink below the spacing of the subnormal doubles (4.9e-324): the
+/// relative terms underflow to zero there
+pub const SUBNORMAL_FLOOR: f64 = 2e-323;
+
 /// tolerance of a sum/difference/product/quotient of two approximations; None = give up (Skip)
 pub fn q_add(a: Q, b: Q, v: f64) -> Q {
     match (tol_of(a), tol_of(b)) {
@@ -37,7 +41,7 @@ pub fn q_add(a: Q, b: Q, v: f64) -> Q {
             if a == Q::Exact && b == Q::Exact {
                 Q::Exact
             } else {
-                Q::Tol(x + y + v.abs() * 1e-15)
+                Q::Tol(x + y + v.abs() * 1e-15 + SUBNORMAL_FLOOR)
             }
         }
         _ => Q::Skip,
@@ -50,7 +54,7 @@ pub fn q_mul(a: Q, av: f64, b: Q, bv: f64, v: f64) -> Q {
             if a == Q::Exact && b == Q::Exact {
                 Q::Exact
             } else {
-                let t = av.abs() * y + bv.abs() * x + x * y + v.abs() * 1e-15;
+                let t = av.abs() * y + bv.abs() * x + x * y + v.abs() * 1e-15 + SUBNORMAL_FLOOR;
                 if t.is_finite() {
                     Q::Tol(t)
                 } else {
@@ -68,7 +72,7 @@ pub fn q_div(a: Q, av: f64, b: Q, bv: f64, v: f64) -> Q {
             if a == Q::Exact && b == Q::Exact {
                 Q::Exact
             } else if bv.abs() > 4.0 * y && bv.is_finite() && av.is_finite() {
-                let t = (x + v.abs() * y) / (bv.abs() - y) + v.abs() * 1e-15;
+                let t = (x + v.abs() * y) / (bv.abs() - y) + v.abs() * 1e-15 + SUBNORMAL_FLOOR;
                 if t.is_finite() {
                     Q::Tol(t)
                 } else {
